@@ -156,7 +156,7 @@ def check_one(hyps, goal, z3_ms, cvc5_ms, watch=None):
     sub = relevant_hyps(hyps, goal)
     if len(sub) < len(hyps):
         s0 = Solver()
-        s0.set('timeout', max(2000, min(z3_ms // 4, 10000)))
+        s0.set('timeout', max(3000, min(z3_ms // 3, 12000)))
         for h in sub:
             s0.add(h)
         s0.add(Not(goal))
@@ -166,7 +166,7 @@ def check_one(hyps, goal, z3_ms, cvc5_ms, watch=None):
     light = [h for h in hyps if (_ufuns(h) is not None) and _SIZE[h.get_id()] <= BIG]
     if len(light) < len(hyps):
         s0 = Solver()
-        s0.set('timeout', max(3000, min(z3_ms // 4, 12000)))
+        s0.set('timeout', max(5000, min(z3_ms // 2, 20000)))
         for h in light:
             s0.add(h)
         s0.add(Not(goal))
